@@ -280,6 +280,16 @@ func siteMatches(p *Program, pat string, in ssa.Instruction) (string, bool) {
 			}
 		}
 		return "call " + short, true
+	case "builtin":
+		// `builtin NAME`: a call of the builtin (append, copy, delete, ...)
+		c, ok := in.(*ssa.Call)
+		if !ok {
+			return "", false
+		}
+		if b, ok := c.Call.Value.(*ssa.Builtin); ok && b.Name() == f[1] {
+			return "call of builtin " + f[1], true
+		}
+		return "", false
 	case "mapupdate":
 		// `mapupdate PATTERN`: m[k] = v on a map whose access path matches
 		mu, ok := in.(*ssa.MapUpdate)
